@@ -429,8 +429,11 @@ impl SoVersion {
                     if i >= comps.len() - 1 {
                         break;
                     }
-                    if let Some(pre) = comp.rfind(|c: char| !c.is_ascii_digit()) {
-                        if let Ok(pre) = comp[pre + 1..].parse() {
+                    if let Some((pre, c)) =
+                        comp.char_indices().rev().find(|(_, c)| !c.is_ascii_digit())
+                    {
+                        // `pre` is a byte index and the character there may be longer than 1 byte
+                        if let Ok(pre) = comp[pre + c.len_utf8()..].parse() {
                             *comps[i + 1] = pre;
                             break;
                         }
